@@ -4,7 +4,7 @@
      - (third slot: kept for a future candidate fix; currently the first outcome again),
    and encodes the three outcomes. Executable only. *)
 From Coq Require Import List ZArith QArith Bool.
-From Gst Require Import lib.Sx C09.Model C09.Readers C09.Spec.
+From Gst Require Import lib.Sx C09.Model C09.Readers C09.Readers2 C09.Spec.
 Import ListNotations.
 Local Open Scope Z_scope.
 
@@ -21,6 +21,13 @@ Definition ofPL (p : polyline) : sx := L [L (map ofNum (pl_x p)); L (map ofNum (
 Definition ofPE (p : polyelem) : sx :=
   L [ofNum (pe_zmin p); ofNum (pe_zmax p); L (map ofNum (pl_x (pe_line p))); L (map ofNum (pl_y (pe_line p)))].
 
+(* ERule::fromValue: an unknown value gives the default (STD = 0) *)
+Definition ofRule (r : rule) : sx := L [I (if (0 <=? ru_mode r) && (ru_mode r <=? 2) then ru_mode r else 0); ofNum (ru_rho r)].
+Definition ofAnamH (a : anamh) : sx := L [I (zlen (ah_psi a)); L (map ofNum (ah_psi a)); ofNum (ah_r a)].
+Definition ofNM (n : neighmoving) : sx := L [I (nm_ndim n); I (nth 1 (nm_ints n) 0); I (nth 2 (nm_ints n) 0)].
+Definition ofVario (v : vario) : sx :=
+  L [I (va_nvar v); I (zlen (va_dirs v)); I (va_calcul v); ofZs (map vd_npas (va_dirs v)); ofZs (map vd_size (va_dirs v))].
+Definition ofGM (g : gmodel) : sx := L [I (gm_ndim g); I (gm_nvar g); I (gm_ncova g); I (gm_nbfl g)].
 Definition ofOutcome {A} (dump : A -> sx) (wf : A -> bool) (o : outcome A) : sx :=
   match o with
   | Failed g => L [I 0; L []; I g]
@@ -33,9 +40,9 @@ Definition is_hang {A} (o : outcome A) : bool := match o with Crashed (Hang _) =
 
 Definition run3 {A} (dump : A -> sx) (wf : A -> bool) (ld : env -> list Z -> outcome A) (cap : Z) (big : nat) (f : list Z) : sx :=
   let n := S (length f) in
-  let o1 := ld (mkEnv cfg_fixed cap n) f in
-  let o2 := if is_hang o1 then ld (mkEnv cfg_fixed cap big) f else o1 in
-  let o3 := o1 in
+  let o1 := ld (mkEnv cfg_fixed cap n (Z.of_nat (length f)) p_none) f in
+  let o2 := if is_hang o1 then ld (mkEnv cfg_fixed cap big (Z.of_nat (length f)) p_none) f else o1 in
+  let o3 := ld (mkEnv cfg_fixed cap n (Z.of_nat (length f)) p_all) f in
   L [ofOutcome dump wf o1; ofOutcome dump wf o2; ofOutcome dump wf o3].
 
 Definition run (c : sx) : sx :=
@@ -52,6 +59,14 @@ Definition run (c : sx) : sx :=
           else if cls =? 11 then run3 ofPL wf_polyline_b load_PolyLine2D cap b f
           else if cls =? 14 then run3 (fun l => L (map ofPL l)) wf_faults_b load_Faults cap b f
           else if cls =? 21 then run3 ofPE wf_polyelem_b load_PolyElem cap b f
+          else if cls =? 13 then run3 ofRule wf_rule_b load_Rule cap b f
+          else if cls =? 10 then run3 ofAnamH (fun _ => true) load_AnamHermite cap b f
+          else if cls =? 8 then run3 (fun n => L [I n]) (fun _ => true) load_NeighUnique cap b f
+          else if cls =? 9 then run3 (fun p => L [I (fst p); ofNum (snd p)]) (fun _ => true) load_NeighBench cap b f
+          else if cls =? 16 then run3 (fun p => L [I (fst p); I (snd p)]) (fun _ => true) load_NeighCell cap b f
+          else if cls =? 7 then run3 ofNM (fun _ => true) load_NeighMoving cap b f
+          else if cls =? 5 then run3 ofVario wf_vario_b load_Vario cap b f
+          else if cls =? 6 then run3 ofGM (fun _ => true) (load_Model (fun _ => true) (fun _ => true)) cap b f
           else sx_error 2
       end
   | _ => sx_error 0
